@@ -116,7 +116,7 @@ func Judge(sc *world.Scenario, w *world.World) []world.Violation {
 		vs = append(vs, world.Violation{Sig: sig, Msg: fmt.Sprintf("proxy panicked: %v\n%s", w.Panic, clipStack(w.Stack))})
 	}
 	if w.Livelock {
-		vs = append(vs, world.Violation{Sig: "livelock", Msg: "proxy loop iterated > 6e7 times without a system call"})
+		vs = append(vs, world.Violation{Sig: "livelock", Msg: "the event loop spins: more than 6e7 loop iterations without a system call, or more than 4e5 system calls within one loop round"})
 	}
 	if w.RunErr != nil {
 		vs = append(vs, world.Violation{Sig: "loop-exit", Msg: "event loop terminated: " + w.RunErr.Error()})
